@@ -255,15 +255,34 @@ class PSim(GSim):
         return _drive(r) if inspect.isgenerator(r) else r
 
 
+def _relay(g):
+    """pass on only REAL requests of a generator-style handler: an open gate (a finished future) is stepped over silently"""
+    try:
+        x = next(g)
+        while True:
+            if isinstance(x, asyncio.Future) and x.done(): x = g.send(x.result())
+            else: x = g.send((yield x))
+    except StopIteration as e:
+        return e.value
+
+
+class QSim(GSim):
+    """the same scripted simulator with a generator-style step that makes NO request in a call unless the script has an
+    asynchronous request (set_data / get_data) for it: a generator that finishes without having yielded anything.  (get_data
+    keeps yielding its - open - gate.)"""
+    def step(self, time, inputs, max_advance=None):
+        return (yield from _relay(GSim.step(self, time, inputs, max_advance)))
+
+
 def build_world(case, cache=True, rev=False, debug=False):
-    world = mosaik.World({'S': {'python': 'harness.simlib:GSim'}, 'P': {'python': 'harness.simlib:PSim'}}, cache=cache, skip_greetings=True,
+    world = mosaik.World({'S': {'python': 'harness.simlib:GSim'}, 'P': {'python': 'harness.simlib:PSim'}, 'Q': {'python': 'harness.simlib:QSim'}}, cache=cache, skip_greetings=True,
                          max_loop_iterations=case.get('maxloop', 100), debug=debug)
     n = case['n']
     ents = {}; mirrors = {}
     grp = [tuple(g) for g in case['grp']]
 
     def start(i):
-        mf = world.start('P' if i in case.get('plain', ()) else 'S', sim_id=f'S{i}', beh=copy.deepcopy(case['beh'][i]))
+        mf = world.start('P' if i in case.get('plain', ()) else 'Q' if i in case.get('quiet', ()) else 'S', sim_id=f'S{i}', beh=copy.deepcopy(case['beh'][i]))
         if case.get('mirror'):
             # several entities per simulator: e and the mirror entities m1, m2, ..., connected index by index
             allents = mf.M.create(1 + case['mirror'])
@@ -324,7 +343,7 @@ class Run:
 def run_case(case, lazy=True, cache=True, strategy='random', seed=0, script=None, fine=False, rev=False,
              debug=False, timeout_events=20000, instant=()) -> Run:
     r = Run()
-    if case.get('plain') and instant != 'all': instant = sorted(set(instant) | {f'S{i}' for i in case['plain']})
+    if (case.get('plain') or case.get('quiet')) and instant != 'all': instant = sorted(set(instant) | {f'S{i}' for i in list(case.get('plain', ())) + list(case.get('quiet', ()))})
     CTX.ctrl = ctrl = Controller(strategy, seed, script, fine, instant)
     try:
         world = build_world(case, cache, rev, debug or bool(case.get('debug')))     # a case may ask for World(debug=True)
